@@ -253,6 +253,19 @@ func runC07(r *Run) {
 						if cancel != nil {
 							cancel()
 						}
+						if rerr != nil && rerr != io.EOF && stopAt < 0 {
+							// reading again on the reader that failed (after other
+							// connections made progress) must not hand out anything
+							for k := 0; k < mp.reread; k++ {
+								r.S.Park("a." + who + ".reread-after-error")
+								n, _ := rd.Read(buf)
+								if n > 0 {
+									r.Violate("bytes-after-error", sig, "conn %d message %d: Read after the error %v returned %d bytes; they %s", cp.id, seq, rerr, n, whose(buf[:n]))
+									return
+								}
+							}
+							r.S.Count("probe.reread-after-error")
+						}
 						var ce websocket.CloseError
 						if errors.As(rerr, &ce) && ce.Reason != "" && ce.Reason != fmt.Sprintf("conn%d", cp.id) {
 							r.Violate("foreign-close-reason", sig, "conn %d: error carries another connection's close reason %q", cp.id, ce.Reason)
